@@ -56,7 +56,14 @@ impl Scopes {
     pub fn add_variable(&mut self, symbol_map: &mut SymbolMap, variable: Variable) {
         let name = variable.name.clone();
         let id = symbol_map.add_variable(variable);
-        let current_scope = self.scopes.last_mut().expect("scope is empty");
+        // a defset collects records but opens no scope of its own: what is declared in its body
+        // belongs to the enclosing scope
+        let current_scope = self
+            .scopes
+            .iter_mut()
+            .rev()
+            .find(|scope| !matches!(scope.kind, ScopeKind::Defset(_)))
+            .expect("scope is empty");
         current_scope.name_to_variable.insert(name, id);
     }
 
